@@ -65,6 +65,7 @@ var commands = map[string]command{
 	"client-trace":        clientTrace,
 	"client-replay":       clientReplay,
 	"transform-replay":    transformReplay,
+	"transform-trace":     transformTrace,
 	"longform-replay":     longformReplay,
 	"jcs-replay":          jcsReplay,
 	"jcs-trace":           jcsTrace,
